@@ -204,6 +204,15 @@ func (g *Gen) mulGrid(share float64) {
 				}
 			}
 			if x, y, ok := g.mulWithTail(t.j, g.tailValue(t), total, na); ok {
+				if g.r.Intn(4) == 0 {
+					// the same product a few digits below the smallest exponent: the digits of the tail (and up to two
+					// more) are shifted out by gradual underflow, after the reduction to 34 digits where there is one
+					_, xn, xc, _ := unmk(x)
+					_, yn, yc, _ := unmk(y)
+					d := 1 + g.r.Intn(t.j+2)
+					e1 := eMin + g.r.Intn(3000)
+					x, y = mk(xn, xc, e1), mk(yn, yc, eMin-d-e1)
+				}
 				g.allModes("Mul", x, y)
 				return
 			}
